@@ -134,10 +134,17 @@ def _bind_args(h: ast.FunctionDef, call: ast.Call) -> Optional[Dict[str, ast.AST
         if p not in bound:
             if p not in defaults:
                 return None
+            if isinstance(defaults[p], ast.Name) and defaults[p].id in SENTINELS:
+                bound[p] = defaults[p]   # a module-level sentinel object: the same object whenever it is evaluated
+                continue
             if not isinstance(defaults[p], ast.Constant):
                 return None  # defaults are evaluated at definition time: only constants are safe to move
             bound[p] = defaults[p]
     return bound
+
+
+# module-level names bound once to `object()` (sentinels for "argument not given"), collected per module at load time
+SENTINELS: Set[str] = set()
 
 
 def _inline_in_function(f: ast.FunctionDef) -> int:
@@ -403,13 +410,14 @@ def _trivial_body(m: ast.FunctionDef) -> bool:
     return all(isinstance(b, ast.Pass) or (isinstance(b, ast.Raise) and b.exc is not None and 'NotImplemented' in ast.unparse(b.exc)) for b in body)
 
 
-def _method_qualifies(m: ast.FunctionDef) -> bool:
+def _method_qualifies(m: ast.FunctionDef, any_name: bool = False, function: bool = False) -> bool:
     """A private helper method that can be read in place of its call: its only `return <value>` is its last statement
     (a function), or it has no `return` at all (a procedure, inlined where its call is a statement of its own)."""
     static = len(m.decorator_list) == 1 and ast.unparse(m.decorator_list[0]) == 'staticmethod'
-    if not m.name.startswith('_') or m.name.startswith('__') or (m.decorator_list and not static) or m.args.vararg or m.args.kwarg or m.args.posonlyargs:
+    named_ok = function or any_name or (m.name.startswith('_') and not m.name.startswith('__'))
+    if not named_ok or (m.decorator_list and not static) or m.args.vararg or m.args.kwarg or m.args.posonlyargs:
         return False
-    if (not m.args.args and not static) or not m.body or _trivial_body(m):
+    if (not m.args.args and not static and not function) or not m.body or _trivial_body(m):
         return False
     is_function = isinstance(m.body[-1], ast.Return) and m.body[-1].value is not None
     body = [b for b in m.body if not (isinstance(b, ast.Expr) and isinstance(b.value, ast.Constant))]
@@ -475,12 +483,12 @@ def _tailify(body: List[ast.stmt], ret: str) -> Optional[List[ast.stmt]]:
     return out
 
 
-def _is_simple_contextmanager(m: ast.FunctionDef) -> bool:
+def _is_simple_contextmanager(m: ast.FunctionDef, function: bool = False) -> bool:
     """A method decorated with contextlib.contextmanager whose body yields exactly once, as a statement of its own, and
     has no return / nested definitions: `with m(...): BODY` then runs the method's body with BODY in place of the yield."""
     if len(m.decorator_list) != 1 or ast.unparse(m.decorator_list[0]) not in ('contextlib.contextmanager', 'contextmanager'):
         return False
-    if m.args.vararg or m.args.kwarg or m.args.posonlyargs or not m.args.args:
+    if m.args.vararg or m.args.kwarg or m.args.posonlyargs or (not m.args.args and not function):
         return False
     ys = [n for n in ast.walk(m) if isinstance(n, (ast.Yield, ast.YieldFrom))]
     if len(ys) != 1 or not isinstance(ys[0], ast.Yield) or ys[0].value is not None:
@@ -497,6 +505,26 @@ def _is_simple_contextmanager(m: ast.FunctionDef) -> bool:
 def _const_truth(t: ast.AST) -> Optional[bool]:
     if isinstance(t, ast.Constant):
         return bool(t.value)
+    if isinstance(t, ast.BoolOp):
+        vs = [_const_truth(v) for v in t.values]
+        if isinstance(t.op, ast.And):
+            if any(v is False for v in vs):
+                return False
+            return True if all(v is True for v in vs) else None
+        if any(v is True for v in vs):
+            return True
+        return False if all(v is False for v in vs) else None
+    if isinstance(t, ast.Compare) and len(t.ops) == 1 and isinstance(t.ops[0], (ast.Is, ast.IsNot)):
+        l, r = t.left, t.comparators[0]
+        same = None
+        if isinstance(l, ast.Name) and isinstance(r, ast.Name) and l.id == r.id and l.id in SENTINELS:
+            same = True
+        elif (isinstance(l, ast.Constant) and isinstance(r, ast.Name) and r.id in SENTINELS) or (isinstance(r, ast.Constant) and isinstance(l, ast.Name) and l.id in SENTINELS):
+            same = False     # a literal is never the sentinel object
+        elif isinstance(l, ast.Constant) and isinstance(r, ast.Constant) and (l.value is None or r.value is None):
+            same = l.value is r.value
+        if same is not None:
+            return same if isinstance(t.ops[0], ast.Is) else (not same)
     if isinstance(t, ast.UnaryOp) and isinstance(t.op, ast.Not):
         v = _const_truth(t.operand)
         return None if v is None else (not v)
@@ -508,6 +536,11 @@ def _fold_constant_ifs(body: List[ast.stmt]) -> List[ast.stmt]:
     out: List[ast.stmt] = []
     for s in body:
         if isinstance(s, ast.If):
+            # drop operands of an `and` that are decided true (`trace and 'start' is not _SENTINEL`)
+            if isinstance(s.test, ast.BoolOp) and isinstance(s.test.op, ast.And):
+                keep_ = [v_ for v_ in s.test.values if _const_truth(v_) is not True]
+                if keep_ and len(keep_) < len(s.test.values) and not any(_const_truth(v_) is False for v_ in s.test.values):
+                    s.test = keep_[0] if len(keep_) == 1 else ast.BoolOp(op=ast.And(), values=keep_)
             v = _const_truth(s.test)
             if v is not None:
                 live = _fold_constant_ifs(s.body if v else s.orelse)
@@ -527,26 +560,36 @@ def _fold_constant_ifs(body: List[ast.stmt]) -> List[ast.stmt]:
     return out
 
 
-def _inline_methods_in_class(c: ast.ClassDef, extra: Optional[Dict[str, ast.FunctionDef]] = None, keep=()) -> int:
+def _inline_methods_in_class(c: Optional[ast.ClassDef], extra: Optional[Dict[str, ast.FunctionDef]] = None, keep=(), funcs: Optional[Dict[str, ast.FunctionDef]] = None,
+                             owners: Optional[List[ast.FunctionDef]] = None, any_name: Optional[Set[str]] = None) -> int:
     """`extra`: helper methods found outside the class body (base classes, the one class of the package a mixin's
-    `self._m` can refer to); `keep`: names never inlined."""
-    helpers = {m.name: m for m in c.body if isinstance(m, ast.FunctionDef) and _method_qualifies(m)}
-    own = {m.name for m in c.body if isinstance(m, ast.FunctionDef)}
+    `self._m` can refer to); `keep`: names never inlined; `funcs`: module-level helper functions (called by bare name);
+    `owners`: the functions whose bodies are rewritten (default: the methods of `c`); `any_name`: method names that qualify
+    without a leading underscore (methods no rule knows about)."""
+    any_name = any_name or set()
+    body_ = list(c.body) if c is not None else []
+    helpers = {m.name: m for m in body_ if isinstance(m, ast.FunctionDef) and _method_qualifies(m, any_name=m.name in any_name)}
+    own = {m.name for m in body_ if isinstance(m, ast.FunctionDef)}
     for k, m in (extra or {}).items():
         if k not in own and _method_qualifies(m):
             helpers[k] = m
     for k in keep:
         helpers.pop(k, None)
+    fhelpers = {k: m for k, m in (funcs or {}).items() if _method_qualifies(m, function=True)}
+    fn_ids = {id(m) for m in (funcs or {}).values()}
     # generator-based context managers: `with self._cm(...): BODY` is the manager's body with BODY at its `yield`
     cms = {}
-    for m in list(c.body) + list((extra or {}).values()):
+    for m in body_ + list((extra or {}).values()):
         if isinstance(m, ast.FunctionDef) and m.name not in cms and _is_simple_contextmanager(m) and m.name not in keep:
             cms[m.name] = m
-    if not helpers and not cms:
+    fcms = {k: m for k, m in (funcs or {}).items() if _is_simple_contextmanager(m, function=True)}
+    if not helpers and not cms and not fhelpers and not fcms:
         return 0
     count = 0
 
     def cm_of(e):
+        if isinstance(e, ast.Call) and isinstance(e.func, ast.Name) and e.func.id in fcms:
+            return fcms[e.func.id], e
         if not isinstance(e, ast.Call) or not isinstance(e.func, ast.Attribute) or e.func.attr not in cms:
             return None, None
         recv = e.func.value
@@ -559,7 +602,7 @@ def _inline_methods_in_class(c: ast.ClassDef, extra: Optional[Dict[str, ast.Func
         return None, None
 
     def expand_with(h: ast.FunctionDef, call: ast.Call, w: ast.With):
-        fake = ast.FunctionDef(name=h.name, args=ast.arguments(posonlyargs=[], args=h.args.args[1:], vararg=None, kwonlyargs=h.args.kwonlyargs,
+        fake = ast.FunctionDef(name=h.name, args=ast.arguments(posonlyargs=[], args=(h.args.args if id(h) in fn_ids else h.args.args[1:]), vararg=None, kwonlyargs=h.args.kwonlyargs,
                                                                kw_defaults=h.args.kw_defaults, kwarg=None, defaults=h.args.defaults), body=h.body, decorator_list=[])
         bound = _bind_args(fake, call)
         if bound is None:
@@ -606,11 +649,13 @@ def _inline_methods_in_class(c: ast.ClassDef, extra: Optional[Dict[str, ast.Func
     def call_of(e):
         if isinstance(e, ast.Call) and isinstance(e.func, ast.Attribute) and isinstance(e.func.value, ast.Name) and e.func.value.id == 'self' and e.func.attr in helpers:
             return helpers[e.func.attr]
+        if isinstance(e, ast.Call) and isinstance(e.func, ast.Name) and e.func.id in fhelpers:
+            return fhelpers[e.func.id]
         return None
 
     def expand(h: ast.FunctionDef, call: ast.Call, at: ast.stmt):
         """(statements, value expression) or None."""
-        is_static = any(ast.unparse(d) == 'staticmethod' for d in h.decorator_list)
+        is_static = any(ast.unparse(d) == 'staticmethod' for d in h.decorator_list) or id(h) in fn_ids
         fake = ast.FunctionDef(name=h.name, args=ast.arguments(posonlyargs=[], args=(h.args.args if is_static else h.args.args[1:]), vararg=None, kwonlyargs=h.args.kwonlyargs,
                                                                kw_defaults=h.args.kw_defaults, kwarg=None, defaults=h.args.defaults), body=h.body, decorator_list=[])
         bound = _bind_args(fake, call)
@@ -719,6 +764,36 @@ def _inline_methods_in_class(c: ast.ClassDef, extra: Optional[Dict[str, ast.Func
                     out.append(ast.fix_missing_locations(ast.copy_location(new, s)))
                     count += 1
                     continue
+            if isinstance(s, ast.If):
+                # `if helper(x):`, `if not helper(x):`, `if A and helper(x):` - the call is hoisted into a local in front of
+                # the test it decides (for `A and helper(x)` inside `if A:`), then read in place
+                t_ = s.test
+                pre_test = None
+                neg_ = False
+                core = t_
+                if isinstance(core, ast.BoolOp) and isinstance(core.op, ast.And) and len(core.values) == 2:
+                    pre_test, core = core.values[0], core.values[1]
+                if isinstance(core, ast.UnaryOp) and isinstance(core.op, ast.Not):
+                    neg_, core = True, core.operand
+                hh = call_of(core)
+                if hh is not None and hh is not host and isinstance(hh.body[-1], ast.Return) or (hh is not None and hh is not host and any(isinstance(x_, ast.Return) for x_ in ast.walk(hh))):
+                    r_ = expand(hh, core, s)
+                    if r_ is not None and r_[1] is not None:
+                        stmts_, rv_ = r_
+                        tmp_ = f'{hh.name}__test'
+                        asg_ = ast.fix_missing_locations(ast.copy_location(ast.Assign(targets=[ast.Name(id=tmp_, ctx=ast.Store())], value=rv_), s))
+                        newtest = ast.Name(id=tmp_, ctx=ast.Load())
+                        if neg_:
+                            newtest = ast.UnaryOp(op=ast.Not(), operand=newtest)
+                        inner_if = ast.If(test=newtest, body=s.body, orelse=copy.deepcopy(s.orelse))
+                        block = stmts_ + [asg_, ast.fix_missing_locations(ast.copy_location(inner_if, s))]
+                        count += 1
+                        if pre_test is None:
+                            out += rewrite(block, host)
+                        else:
+                            outer_if = ast.If(test=pre_test, body=block, orelse=s.orelse)
+                            out += rewrite([ast.fix_missing_locations(ast.copy_location(outer_if, s))], host)
+                        continue
             if isinstance(s, ast.With) and len(s.items) == 1 and s.items[0].optional_vars is None:
                 hcm, call2 = cm_of(s.items[0].context_expr)
                 if hcm is not None and hcm is not host:
@@ -739,14 +814,40 @@ def _inline_methods_in_class(c: ast.ClassDef, extra: Optional[Dict[str, ast.Func
             out.append(s)
         return out
 
+    targets = owners if owners is not None else [m for m in body_ if isinstance(m, ast.FunctionDef)]
     for _round in range(4):
         before = count
-        for m in c.body:
-            if isinstance(m, ast.FunctionDef):
-                m.body = rewrite(m.body, m)
+        for m in targets:
+            m.body = rewrite(m.body, m)
         if count == before:
             break
     return count
+
+
+def inline_unknown_functions(tree: ast.Module, known_functions: Set[str], known_methods: Dict[str, Set[str]]) -> int:
+    """Helpers that no rule anchors on - module-level functions and methods that did not exist when the rules were written
+    (fsa/known_names.json) - are read in place of their calls, everywhere in the module."""
+    funcs = {n.name: n for n in tree.body if isinstance(n, ast.FunctionDef) and n.name not in known_functions}
+    total = 0
+    SENTINELS.clear()
+    for n in tree.body:
+        tgt = n.targets[0] if isinstance(n, ast.Assign) and len(n.targets) == 1 else (n.target if isinstance(n, ast.AnnAssign) else None)
+        if isinstance(tgt, ast.Name) and isinstance(getattr(n, 'value', None), ast.Call) and isinstance(n.value.func, ast.Name) and n.value.func.id == 'object' and not n.value.args:
+            SENTINELS.add(tgt.id)
+    owners: List[ast.FunctionDef] = []
+    for n in ast.walk(tree):
+        if isinstance(n, ast.FunctionDef) and n.name not in funcs:
+            owners.append(n)
+    if funcs:
+        # helpers may call each other: rewrite them too (after the owners, so that owners see the final bodies on later rounds)
+        total += _inline_methods_in_class(None, funcs=funcs, owners=list(funcs.values()) + owners)
+    for c in tree.body:
+        if isinstance(c, ast.ClassDef):
+            new_m = {m.name for m in c.body if isinstance(m, ast.FunctionDef)} - known_methods.get(c.name, set())
+            new_m = {k for k in new_m if not (k.startswith('__') and k.endswith('__'))}
+            if new_m:
+                total += _inline_methods_in_class(c, any_name=new_m, keep=tuple(m.name for m in c.body if isinstance(m, ast.FunctionDef) and m.name not in new_m))
+    return total
 
 
 def inline_private_methods(tree: ast.Module) -> int:
